@@ -523,6 +523,10 @@ namespace
                     if (sl->cursor != cur) violate(std::string("C15/sline-cursor@") + when, "%s: cursor %u, reference %zu", when, sl->cursor, cur);
                     if (sl->cursor > sl->len) violate("C15/bounds", "%s: cursor %u > length %u", when, sl->cursor, sl->len);
                     if (memcmp(sl->buf, m.data(), m.size()) != 0) violate(std::string("C15/sline-content@") + when, "%s: buffer differs from the reference line '%s'", when, m.c_str());
+                    // the small accessors agree with the reference as well
+                    if (sline_rightsize(sl) != m.size() - cur || sline_rightpart(sl) != sl->buf + cur || (sline_in_rightpos(sl) != 0) != (cur == m.size()) || (sline_empty(sl) != 0) != m.empty() ||
+                        (size_t)sline_size(sl) != m.size() || (size_t)sline_avail(sl) != cap - m.size() || !sline_equal(sl, m.c_str()) || (m.size() && sline_equal(sl, m.substr(1).c_str())))
+                        violate(std::string("C15/sline-accessors@") + when, "%s: rightsize/rightpart/in_rightpos/empty/size/avail/equal disagree with the reference line '%s' cursor %zu", when, m.c_str(), cur);
                 }
                 else
                 {
@@ -574,7 +578,11 @@ namespace
                 {
                     size_t cnt = std::min(n % 4, cur);
                     if (wrapper) xsl.backspace((int)(n % 4));
-                    else sline_backspace(sl, (unsigned)(n % 4));
+                    else
+                    {
+                        int rc = sline_backspace(sl, (unsigned)(n % 4));
+                        if ((size_t)rc != cnt) violate("C15/sline-edit-result", "sline_backspace(%zu) returned %d, %zu characters were left of the cursor", n % 4, rc, cur);
+                    }
                     m.erase(cur - cnt, cnt);
                     cur -= cnt;
                     break;
@@ -583,18 +591,22 @@ namespace
                 {
                     size_t cnt = std::min(n % 4, m.size() - cur);
                     if (wrapper) xsl.del((int)(n % 4));
-                    else sline_delete(sl, (unsigned)(n % 4));
+                    else
+                    {
+                        int rc = sline_delete(sl, (unsigned)(n % 4));
+                        if ((size_t)rc != cnt) violate("C15/sline-edit-result", "sline_delete(%zu) returned %d, %zu characters were right of the cursor", n % 4, rc, m.size() - cur);
+                    }
                     m.erase(cur, cnt);
                     break;
                 }
                 case L_LEFT:
                     if (wrapper) xsl.left();
-                    else sline_left(sl);
+                    else if ((sline_left(sl) != 0) != (cur > 0)) violate("C15/sline-edit-result", "sline_left returned the wrong answer with the cursor at %zu", cur);
                     if (cur > 0) cur--;
                     break;
                 case L_RIGHT:
                     if (wrapper) xsl.right();
-                    else sline_right(sl);
+                    else if ((sline_right(sl) != 0) != (cur < m.size())) violate("C15/sline-edit-result", "sline_right returned the wrong answer with the cursor at %zu of %zu", cur, m.size());
                     if (cur < m.size()) cur++;
                     break;
                 case L_GETLINE:
